@@ -28,4 +28,29 @@ PROPS = {
         'trusted': ['bytes are modelled as list N with every element < 256 (wfb); Go slices aliasing is not modelled'],
         'assumptions': ['field sizes below 2^32 (the wire format cannot express more); TLV payloads below 2^16'],
     },
+    'C14': {
+        'level_text': 'Theorems for all data/sizes/arrival sequences on the Gallina mirror of fragmentation.go: piece length bound, '
+                      'in-order reassembly = original exactly once (v2 header format; count <= 65535), only complete 1..n runs are '
+                      'ever handed on, each hand-over consumes its own final piece. Mirror tied to the code every run.',
+        'level_note': 'v3 receive side (tags) is covered at conversation level; >65535 pieces is a recorded known finding; '
+                      'model/code tie is differential (bounded by the generator).',
+        'trusted': ['fmt %05d/%08x and strconv.Atoi/ParseInt are mirrored (Bytes/Strconv.v) and diffed, not verified'],
+        'assumptions': ['payload contains no comma (true of every encoded OTR message: base64 + "?OTR:" + ".")'],
+    },
+    'C15': {
+        'level_text': 'Theorems: the routing helper returns exactly (receiver, sender) tags for every v3 encoded message and every v3 '
+                      'fragment prefix, and none for v2 (all tag values, all bodies); conversation-level tag isolation theorems '
+                      'on the conversation model. Mirror tied to the code every run.',
+        'level_note': 'base64 mirrored and proved to round-trip; conversation-level part relies on the conversation model correspondence.',
+        'trusted': ['encoding/base64 mirrored in Bytes/B64.v'],
+        'assumptions': [],
+    },
+    'C16': {
+        'level_text': 'Theorems: version choice is the highest allowed-and-offered one for all policy/offer bit sets; a query generated '
+                      'under policy p offers exactly p\'s versions to any reader; whitespace tag removal returns the text byte-exact '
+                      'unless the header begins inside the text (refuted full statement = known finding). Tied to the code every run.',
+        'level_note': 'two-party negotiation over all 64x64 policy pairs is checked on the conversation model; differential tie.',
+        'trusted': [],
+        'assumptions': ['texts in which the whitespace tag header begins before the appended tag are excluded (known finding)'],
+    },
 }
